@@ -16,7 +16,12 @@ SPEC = dict(
              'exactly the next bits and advance by exactly that many, and raise leaving the slice unchanged when more is requested than remains '
              '(c07_read_bounds); every typed read leaves a suffix of its input (c07_read_suffix); the capacity comparisons themselves (check_overflow/'
              'check_underflow, the refs tests of store_ref/store_cell/store_slice) are re-translated from the source on every run and proved to refuse '
-             'exactly beyond 1023 bits / 4 refs (c07_src_*). The model is tied to the working tree by '
+             'exactly beyond 1023 bits / 4 refs (c07_src_bits_capacity, c07_src_refs_capacity, c07_src_read_bound); and the WHOLE store_* / load_* methods with the TvmBitarray methods '
+             'extend / append / frombytes / check_overflow / check_underflow / __delitem__ are re-translated from the source on every run and proved equal to the hand model for all '
+             'arguments and states (see C06), so c07_src_invariant (every regenerated builder operation keeps 1023 bits / 4 refs, returning or raising), c07_src_refuse_iff, '
+             'c07_src_refuse_iff_composite (raise iff out of range or no room; remaining refs of a slice) and c07_src_read_bounds (over-read raises and leaves the slice unchanged, '
+             'otherwise exactly the next bits and an advance by exactly that many) are theorems about the regenerated methods. store_snake_bytes stays hand model + differential testing. '
+             'The model is tied to the working tree by '
              'differential testing of builder histories at every fill level and of over-reads, each also checked on the library alone against an '
              'independent fits/range predictor.',
         level_note='Proved for all inputs: the statements above, about Model/Builder.lean. Only sampled: that the Python code behaves as the model '
@@ -25,7 +30,7 @@ SPEC = dict(
                    'against its 5-bit field (TL-B says <= 30), Address.hash_part is assumed to have 32 bytes. Non-consuming preload_* on an '
                    'over-read return short data (outside the property, recorded in design/C07.md).',
         technique='Lean 4 proof (hand model, invariant by induction over operation histories) + differential correspondence with the library '
-                  '+ source-regenerated arithmetic lemmas'),
+                  '+ source-regenerated methods (equality with the hand model proved for all inputs) and arithmetic lemmas'),
     translators=[('tvm_bitarray.py/builder.py capacity tests->Generated/Capacity.lean', arith.regenerator('Capacity')),
                  ('builder.py/tvm_bitarray.py store_* methods->Generated/BuilderOps.lean', bsops.regenerator('BuilderOps')),
                  ('slice.py/tvm_bitarray.py load_*/preload_* methods->Generated/SliceOps.lean', bsops.regenerator('SliceOps'))],
@@ -35,7 +40,8 @@ SPEC = dict(
          'its value is in range and its encoding fits; over-reads for every remaining length 0..16 x request 0..24 and random; depth limit; '
          'distinct = distinct script; all non-trivial',
     trusted_base=['Model/Builder.lean mirrors builder.py/slice.py/TvmBitarray by hand', 'harness/gen/scripts.py executors + independent TL-B encoder',
-                  'harness/translate/pyarith.py + arith.py (Python comparisons -> Lean) for the c07_src_* theorems'],
+                  'harness/translate/pyarith.py + arith.py (Python comparisons -> Lean) for the c07_src_* capacity tests',
+                  'harness/translate/pymeth.py + bsops.py (stateful methods -> Lean; declared interface) and lean/TonVerif/PyBits.lean for the c07_src_* method theorems; validated against the library on op scripts'],
     assumptions=['correspondence is sampled differential testing'],
 )
 
